@@ -3683,6 +3683,7 @@ def Gillespie_complex_contagion(G, rate_function, transition_choice,
         parameters = ()
         
 
+    IC = IC.copy() #a defaultdict passed by the caller must not gain keys
     status = {node: IC[node] for node in G.nodes()}
 
     if return_full_data:
@@ -4085,6 +4086,7 @@ def Gillespie_simple_contagion(G, spontaneous_transition_graph,
     if sim_kwargs is None:
         sim_kwargs = {}
         
+    IC = IC.copy() #a defaultdict passed by the caller must not gain keys
     status = {node: IC[node] for node in G.nodes()}
 
     if return_full_data:
